@@ -7,11 +7,14 @@ def run(prog, rep, tier):
     rep.clause = ("N1: each `%X stands for %( BODY %)` row of doc/syntax.rst (5) is implemented by the scanner as push_child(parse_subquery(BODY)) - "
                   "the implementation IS the expansion; N2: parse_op builds ASSERT(PRED_SUBX_ANY(SCOPE(SUBX_EVAL<1>(a) BIND ~a~ SUBX_EVAL<1>(b) BIND ~b~ "
                   "READ ~a~ READ ~b~ READ op))) with identical reserved names at bind and read; S1: ALT children (so both `E?` and `(E,)`) get a scope "
-                  "of their own.")
+                  "of their own; N3: the bison actions of `E?`, `E*`, `E+`, if-then-else interpreted on an operand of every tree kind: `E?` is exactly "
+                  "ALT(E's alternatives..., NOP) i.e. `(E,)`; closures wrap SCOPE(E) and only reuse a closure directly beneath them "
+                  "((F+)* = F*, (F*)+ = F*); if-then-else is IFELSE of three SCOPEs.")
     rep.not_decided = ("simplifier transparency, whitespace/comment placement, escape sequences vs bytes, string continuation, `if` vs its expansion, "
                        "`?(E)` vs `([E] != [])`: these equate results of two programs for all inputs (other families).")
     apply(rep, "N1", "format directives are their documented expansions", r_lex.n1(prog), 5)
     apply(rep, "N2", "infix operators are the documented ?(let..) tree", r_lex.n2(prog), 1)
+    apply(rep, "N3", "`E?`, `E*`, `E+` and if-then-else build their documented trees for every kind of operand (grammar actions interpreted from source)", r_lex.n3(prog), 4)
     import r_tables
     apply(rep, "U1", "the simplifier's erase-remove drops the whole removed tail", r_tables.u1(prog), 1)
     apply(rep, "Y2", "every %( ... %) splice of a literal is scanned from the same initial state as the directive forms", r_lex.y2(prog), 2)
